@@ -20,7 +20,8 @@ RULE = ("a case = one generated Var tree with its ops: enc (Json::encode / Xdl::
         "or a non-trivial scalar")
 TRUSTED = ["tools/props/c05.py generators and the python3 oracles (json.loads of the encoder output; expected dump computed from the tree)",
            "lean/AslModel/Dtoa.lean as the meaning of snprintf(\"%.Pg\") and lean/AslModel/Strtod.lean as the meaning of atof "
-           "(both compared with glibc on every number of every run)"]
+           "(both compared with glibc on every number of every run)",
+           "tools/props/c06.py translate(): the decoder model's int/atof split and \\u buffer sizes are read from src/Xdl.cpp into lean/Gen/XdlGen.lean"]
 ASSUMPTIONS = [
     "H1: glibc snprintf(\"%.17g/%.15g/%.9g/%.7g\") prints the correctly rounded decimal in C-locale %g layout (model: AslModel.Dtoa.fmtG; "
     "K compares every generated number byte for byte)",
@@ -560,6 +561,11 @@ def gen(rng, tier):
     return cases
 
 
+# the decoder model (lean/AslModel/Xdl.lean) reads the int/atof split and the \\u buffer sizes from lean/Gen/XdlGen.lean
+translate = J.translate
+FALLBACK = J.FALLBACK
+
+
 def nontrivial(case):
     return any(len(l.split()) > 3 or (len(l.split()) == 3 and l.split()[2] not in ("n", "z", "t", "f", "i0")) for l in case)
 
@@ -616,8 +622,9 @@ LEVEL_TEXT = ("Proved in Lean 4 about the executable model of XdlEncoder/Xdl::wr
               "character ints), json_roundtrip + json_roundtrip_same (decode(encode v) has the structure of v: same array lengths/order, same "
               "keys in order, identical strings/booleans, undefined members dropped - relation Same, for trees with distinct keys), "
               "xdl_roundtrip + xdl_roundtrip_same (compact and pretty XDL, identifier keys incl. digit-first and `$type` with ANY value: "
-              "xdl_class_name_test - class notation is used exactly for the strings the decoder reads back as a class name, everything else is "
-              "an ordinary property), sink_concat / "
+              "xdl_class_name_test restates the encoder's isClassName test as the predicate validCls (definitional); names passing it are written "
+              "in class notation and PROVED to be read back as $type - sufficiency only, that no other string would survive class notation is "
+              "not proved -, everything else is an ordinary property), sink_concat / "
               "writer_refines (the 16000-byte flushing sink loses and duplicates nothing, every mode), read_chunks, file_roundtrip and "
               "xdl_file_roundtrip (write then read through a file of any size = decode(encode)), double_roundtrip / float_roundtrip (the "
               "bit-for-bit clauses, conditional on H2d/H2f = 'atof of the 17/9-digit lexeme is the number', a statement about libc), fmtG_H1 and "
@@ -630,7 +637,8 @@ LEVEL_NOTE = ("Partial / not proved: (1) H2d and H2f (17 resp. 9 digits identify
               "double_roundtrip_full` states H2d for the concrete Dtoa.fmtG/Strtod.atofBits; K and the python oracle exercise it on every "
               "generated number (denormals, +-DBL_MAX, -0, powers of two +-1ulp, random bits). (2) Strtod.atofBits is proved exact "
               "on integer lexemes only (atof_int_exact), not correctly rounded in general. Same/SameX need distinct keys per object (what Dic "
-              "guarantees); with duplicate keys the last value wins (C06 norm_object_lookup). XDL theorems need identifier keys. "
+              "guarantees); with duplicate keys the last value wins (C06 norm_object_lookup). XDL theorems need identifier keys; the member order after an XDL round trip ($type first) is fixed by "
+              "SameX only - the K dump sorts members by key, so order is never observed on the implementation. "
               "Fixed in /repo for this property: 737b5bf, 88049f3, a755d42 (found by this check: 1-2 byte files could not be read back), "
               "c4482e8 (a $type that is not a class name destroyed the XDL round trip; the check had scoped such trees out - now in scope), "
               "c9789c6 (nesting limit). Not a defect as worded: -0.0 and integral doubles are written without fraction ('-0', '5') and come back "
